@@ -851,9 +851,24 @@ def program_case(ctx, case):
         g = groups.pop(0) if groups else 1
         definition.append({n: build_type(sp) for n, sp in fields[k:k + g]})
         k += g
-    cls = type('GeneratedPacket', (Packet,), {
-        'id': case['id'], 'definition': definition,
-        'packet_name': 'generated'})
+    body_ = {'id': case['id'], 'definition': definition,
+             'packet_name': 'generated'}
+    # 'enums': indices of fields that get a nested Enum class named after
+    # them (the library's idiom for naming field values in repr()), whatever
+    # the field's type; 'consts': the packet class also carries upper-case
+    # class constants that are not scalars
+    from minecraft.networking.types import Enum as _Enum
+    for i in case.get('enums') or ():
+        if fields:
+            n = fields[i % len(fields)][0]
+            body_[''.join(x.capitalize() for x in n.split('_'))] = type(
+                'Names', (_Enum,), {'ZERO': 0, 'ONE': 1, 'TEXT': 'a',
+                                    'PAIR': (0, 0), 'MANY': [0, 1]})
+            ctx.label('program_field_enum')
+    if case.get('consts'):
+        body_.update({'ALL_MODES': [0, 1], 'TABLE': {'a': 1}})
+    cls = type('GeneratedPacket', (Packet,) + (
+        (_Enum,) if case.get('consts') else ()), body_)
     p = cls()
     p.context = P4.ctx_for(ver)
     vals = case['values']
@@ -1163,9 +1178,13 @@ def t_programs(ctx, n):
                       names, st.booleans()).flatmap(mk)
 
     def body(c, t):
-        (ver, pid, fields, vals), grp = t
+        ((ver, pid, fields, vals), grp), en, co = t
         case = {'version': ver, 'id': pid, 'fields': fields,
                 'values': list(vals)}
+        if en:
+            case['enums'] = en
+        if co:
+            case['consts'] = True
         if grp:
             case['groups'] = grp
             c.label('program_multi_key_entries')
@@ -1174,6 +1193,9 @@ def t_programs(ctx, n):
             c.sample(case, 'program')
     strat = st.tuples(strat, st.one_of(
         st.just([]), st.lists(st.integers(0, 3), max_size=6)))
+    strat = st.tuples(strat, st.one_of(
+        st.just([]), st.lists(st.integers(0, 7), max_size=3)),
+        st.sampled_from([False, False, True]))
     hyp(ctx, 'programs', strat, body, n)
 
 
